@@ -31,10 +31,8 @@ ObsMsgs(js) == [k \in DOMAIN js |-> ObsMsg(js[k])]
 ObsPRS(j) == [h |-> j.h, r |-> j.r, step |-> j.step, proposal |-> j.proposal, pbpHdr |-> j.pbpHdr, pbp |-> SeqSet(j.pbp),
               polR |-> j.polR, pol |-> SeqSet(j.pol), pv |-> SeqSet(j.pv), pc |-> SeqSet(j.pc), lcR |-> j.lcR, lc |-> SeqSet(j.lc),
               ccR |-> j.ccR, cc |-> SeqSet(j.cc), ccAlias |-> j.ccAlias]
-\* peer claims are not observable (types.VoteSet.peerMaj23s); a vote-set entry for a block nobody voted for is a claim
-ObsVS(o) ==
-  LET by == {<<p[1], p[2]>> : p \in SeqSet(o.by)} IN
-  [votes |-> o.votes, by |-> by, pm |-> {<<"ext", b>> : b \in {e \in SeqSet(o.ent) : ~\E q \in by : q[1] = e}}, maj |-> o.maj]
+\* peer claims are not observable in the code (types.VoteSet.peerMaj23s): the harness keeps a shadow of the claims it delivered
+ObsVS(o) == [votes |-> o.votes, by |-> {<<p[1], p[2]>> : p \in SeqSet(o.by)}, pm |-> {<<"ext", b>> : b \in SeqSet(o.pm)}, maj |-> o.maj]
 ObsParty(j) ==
   [h |-> j.h,
    cn |-> [height |-> 1, round |-> j.cn.round, step |-> j.cn.step,
@@ -53,12 +51,21 @@ ObsParty(j) ==
 Entries(vs) == {b \in {q[1] : q \in vs.by} \cup {c[2] : c \in vs.pm} : TRUE}
 VSView(vs) == [votes |-> vs.votes, by |-> vs.by, ent |-> Entries(vs), maj |-> vs.maj]
 View(p) ==
-  [h |-> p.h, parts |-> p.parts, chain |-> p.chain,
+  [h |-> p.h, parts |-> p.parts,
+   \* which precommits the store returns for a decided height changes when the NEXT block (with its LastCommit) is saved:
+   \* seen commit before, the proposer's selection afterwards -- compared by block and round only
+   chain |-> [k \in DOMAIN p.chain |-> [v |-> p.chain[k].v, r |-> p.chain[k].r]],
    round |-> p.cn.round, step |-> p.cn.step, lockedR |-> p.cn.lockedR, lockedV |-> p.cn.lockedV, validR |-> p.cn.validR,
    validV |-> p.cn.validV, prop |-> p.cn.prop, propBlock |-> p.cn.propBlock, partsHdr |-> p.cn.partsHdr, ttp |-> p.cn.ttp,
    pv |-> [r \in Rounds |-> VSView(p.cn.pv[r])], pc |-> [r \in Rounds |-> VSView(p.cn.pc[r])],
    tracked |-> p.cn.tracked, lastCommit |-> p.cn.lastCommit]
 
+\* the peer's NewRoundStep announcements are modelled by ONE message for the height/round/step the call ends in; the code
+\* sends one per newStep() (also when nothing changed: enterPrecommitWait): compare modulo the intermediate ones
+NormAnn(ann, before) ==
+  LET other == SelectSeq(ann, LAMBDA m : m.k # "NRS")
+      nrs   == SelectSeq(ann, LAMBDA m : m.k = "NRS")
+  IN other \o (IF nrs = << >> \/ nrs[Len(nrs)] = AnnNRS(before) THEN << >> ELSE <<nrs[Len(nrs)]>>)
 Drift(what, spec) == [l |-> l, what |-> what, spec |-> spec]
 Viol(inv, class)  == [l |-> l, inv |-> inv, class |-> class]
 Same == UNCHANGED <<n, x, prs, kv, kp, kprop, kh>>
@@ -121,7 +128,7 @@ StepRecv(e) ==
 StepEnv(e) ==
   /\ x' = ObsParty(e.x)
   /\ drift' = drift \cup FailIf(View(Step1(x, e.e).x) # View(ObsParty(e.x)), Drift("peer brain differs from TMConsensusNode", e.e.op))
-                    \cup FailIf(Step1(x, e.e).ann # ObsMsgs(e.ann), Drift("peer announcements differ from the model", e.e.op))
+                    \cup FailIf(NormAnn(Step1(x, e.e).ann, x) # NormAnn(ObsMsgs(e.ann), x), Drift("peer announcements differ from the model", e.e.op))
   /\ UNCHANGED <<n, prs, kv, kp, kprop, kh, viol>>
 
 \* the situation has been set up: both scripts run, the peer connected ("live": before its script, "fresh": after)
@@ -159,7 +166,7 @@ StepDeliver(e) ==
       d == Deliver(x, m)
   IN /\ x' = ObsParty(e.x)
      /\ drift' = drift \cup FailIf(View(d.x) # View(ObsParty(e.x)), Drift("peer brain differs from TMConsensusNode", m.k))
-                       \cup FailIf(d.ann # ObsMsgs(e.ann), Drift("peer announcements differ from the model", m.k))
+                       \cup FailIf(NormAnn(d.ann, x) # NormAnn(ObsMsgs(e.ann), x), Drift("peer announcements differ from the model", m.k))
      /\ UNCHANGED <<n, prs, kv, kp, kprop, kh, viol>>
 
 \* the routines have come to rest (a whole fair round without a send or a change), or the round budget is used up
